@@ -117,16 +117,13 @@ def strategy_(draw):
         return c
     if route == "from_numpy":
         return {"route": route, "spec": draw(_numpy_spec())}
-    # partitioned: one value split into 1..3 partitions, each with its own encoding
-    T = draw(gen.types(CFG))
-    vals = draw(gen.values(T, CFG))
+    # partitioned: one array cut into 1..3 partitions (range slices of one layout, so that all partitions have the
+    # same Form, which to_buffers requires), empty partitions included
+    desc = draw(_layout_case(CFG))
+    _, vals = M.decode(desc)
     k = draw(st.integers(1, 3))
     cuts = sorted(draw(st.integers(0, len(vals))) for _ in range(k - 1))
-    parts, lo = [], 0
-    for hi in cuts + [len(vals)]:
-        parts.append(draw(gen.encode(T, vals[lo:hi], CFG)))
-        lo = hi
-    return {"route": route, "parts": parts, "opts": {"via": draw(st.sampled_from(["buffers", "pickle"]))}}
+    return {"route": route, "desc": desc, "cuts": cuts, "opts": {"via": draw(st.sampled_from(["buffers", "pickle"]))}}
 
 
 def strategy(tier):
@@ -275,28 +272,35 @@ def _route_partitioned(case):
     if not _have_virtual():
         return None, "partitioned arrays are not available in this build of the emulation", None
     buffers = []
-    lays = [P.harray(d, buffers).layout for d in case["parts"]]
+    whole = P.harray(case["desc"], buffers).layout
     snaps = P.snapshot(buffers)
-    V = []
-    lens = []
-    for d in case["parts"]:
-        _, v = M.decode(d)
-        V.extend(v)
-        lens.append(len(v))
+    _, V = M.decode(case["desc"])
+    bounds = [0] + list(case["cuts"]) + [len(V)]
+    lens = [hi - lo for lo, hi in zip(bounds[:-1], bounds[1:])]
+    kind, lays = P.outcome(lambda: [whole[lo:hi] for lo, hi in zip(bounds[:-1], bounds[1:])])
+    if kind != "ok":
+        raise Violation("refused:partitioned:slice", "range-slicing a valid array raised %s: %s" % (kind, str(lays)[:300]))
     kind, a = P.outcome(lambda: A.Array(A.partition.IrregularlyPartitionedArray(lays)))
     if kind != "ok":
         raise HarnessError("cannot build a partitioned array: %s" % (a,))
+    # the Python-level class drops empty partitions on construction (documented normalisation): the partitioning to be
+    # reproduced is the one the array actually has
+    lens = [len(p) for p in a.layout.partitions]
+    if sum(lens) != len(V):
+        raise Violation("partitioning:construct", "partitioned array of total length %d built from slices of total length %d" % (sum(lens), len(V)))
     if case["opts"]["via"] == "pickle":
         kind, b = P.outcome(lambda: pickle.loads(pickle.dumps(a)))
     else:
         kind, b = P.outcome(lambda: A.from_buffers(*A.to_buffers(a)))
     P.check_purity(buffers, snaps, "partitioned")
     if kind != "ok":
-        raise Violation("refused:partitioned:" + case["opts"]["via"], "%s of a partitioned array raised %s: %s" % (case["opts"]["via"], kind, str(b)[:300]))
+        msg = str(b)
+        raise Violation("refused:partitioned:" + case["opts"]["via"], "%s of a partitioned array raised %s: %s" % (
+            case["opts"]["via"], kind, (msg[:120] + " ... " + msg[msg.index("differs from the first Form"):][:60]) if "differs from the first Form" in msg else msg[:300]))
     bl = b.layout
     if not isinstance(bl, A.partition.PartitionedArray):
-        if len(lays) > 1:
-            raise Violation("partitioning:" + case["opts"]["via"], "a partitioned array with %d partitions came back unpartitioned" % len(lays))
+        if len(lens) > 1:
+            raise Violation("partitioning:" + case["opts"]["via"], "a partitioned array with %d partitions came back unpartitioned" % len(lens))
         got_lens = [len(bl)]
     else:
         got_lens = [len(p) for p in bl.partitions]
@@ -307,11 +311,11 @@ def _route_partitioned(case):
         raise Violation("value:partitioned:" + case["opts"]["via"], "value changed", expected=M.jsonable(V), observed=M.jsonable(gV))
     if str(A.type(a)) != str(A.type(b)):
         raise Violation("type:partitioned", "type changed", expected=str(A.type(a)), observed=str(A.type(b)))
-    return case["parts"], V, ["partitions:%d" % len(lays), "via:" + case["opts"]["via"]]
+    return [case["desc"]] * len(lays), V, ["partitions:%d" % len(lays), "via:" + case["opts"]["via"]] + (["empty_slice_dropped"] if len(lens) < len(lays) else [])
 
 
 def _all_missing_over_empty(d):
-    """an option node with length > 0 whose content has length 0"""
+    """an option node whose content has length 0"""
     def length(n):
         c = n["class"]
         if c == "NumpyArray":
@@ -340,7 +344,7 @@ def _all_missing_over_empty(d):
 
     def walk(n):
         c = n["class"]
-        if c in ("IndexedOptionArray32", "IndexedOptionArray64", "ByteMaskedArray", "BitMaskedArray") and length(n) > 0 and length(n["content"]) == 0:
+        if c in ("IndexedOptionArray32", "IndexedOptionArray64", "ByteMaskedArray", "BitMaskedArray") and length(n["content"]) == 0:
             return True
         if "content" in n and walk(n["content"]):
             return True
@@ -356,7 +360,7 @@ def _route_arrow(case):
     snaps = P.snapshot(buffers)
     T, V = M.decode(case["desc"])
     if _all_missing_over_empty(case["desc"]):
-        return None, "an all-missing option node over zero-length content goes through pyarrow's null -> T cast, whose buffer layout depends on the pyarrow version", None
+        return None, "an option node over zero-length content goes through pyarrow's null -> T cast, whose support and buffer layout depend on the pyarrow version", None
     kind, arr = P.outcome(lambda: A.to_arrow(a, list_to32=o["list_to32"], string_to32=o["string_to32"], bytestring_to32=o["bytestring_to32"],
                                              allow_tensor=o["allow_tensor"]))
     P.check_purity(buffers, snaps, "to_arrow")
@@ -474,3 +478,12 @@ def run_case(case):
 
 # ------------------------------------------------------------------------------------------------ known findings
 KNOWN = dict(K.PREDICATES)
+
+
+def _known_partitioned_indexed_forms(case, vio):
+    return (case.get("route") == "partitioned" and vio.get("bucket", "").startswith("refused:partitioned")
+            and "differs from the first Form" in vio.get("message", "") + str(vio.get("observed", ""))
+            and K.any_node(case["desc"], lambda n: n["class"] in ("IndexedArray32", "IndexedArrayU32", "IndexedArray64")))
+
+
+KNOWN["to_buffers_partitioned_indexed_forms"] = _known_partitioned_indexed_forms
